@@ -9,6 +9,7 @@
   implies the multiset equality the run-time oracle checks.
 -/
 import HL.Lemmas.Undeclared
+import HL.Generated.Expect.PureDiag
 namespace HL.Props.C18
 open HL HL.Ast HL.Undeclared HL.Spec.Undeclared HL.Lemmas.Undeclared
 
